@@ -12,7 +12,12 @@ let check (b : block) : verdict list =
       else if pre "lib " || l = "lib" then begin
         let lib = if l = "lib" then "" else rest "lib " in
         bump "cli_commands_compared";
+        let starts s p = String.length s >= String.length p && String.sub s 0 (String.length p) = p in
         match !cli with
+        | Some c when starts c "EXIT Some(101)" && starts lib "PANIC" ->
+          (* the binary dies of the same panic as the library call: the glue agrees; whether the
+             panic is acceptable is decided by the property's own oracle on the library call *)
+          bump "cli_both_panic"
         | Some c when c <> lib ->
           let name = List.hd (String.split_on_char ' ' !cur) in
           out := Viol ("cli:" ^ name ^ "-differs",
